@@ -188,6 +188,8 @@ def main():
   for _mode in sorted({c.get("mode", "release") for c in cases} | ({"release"} if pid == "C36" else set())):
     _worker.prepare_cache(_mode)
   budget = getattr(mod, "BUDGET", {"quick": 240, "thorough": 2400})[tier]
+  # development aid: VERIF_BUDGET_SCALE=0.5 halves the soft time budget (workers stop starting new cases earlier)
+  budget = int(budget * float(os.environ.get("VERIF_BUDGET_SCALE", "1")))
   hard = budget * 3 + 300
   results, crashes, notes = run_workers(pid, cases, args.workers, budget, workdir, hard)
 
